@@ -236,6 +236,22 @@ LogTermsSane(n, st) ==
         /\ st[a].log[i][1] <= st[a].term
         /\ (i > 1 => st[a].log[i - 1][1] <= st[a].log[i][1])
 
+(* ---- step (d), Raft 5.4.2: a leader commits by counting replicas only up to an entry of its OWN
+   term; older-term entries commit transitively beneath it.  pre / post: the member's record before
+   and after one step.  (A member that is leader after a step and whose commit index grew in it
+   advanced it in step (d): a current-term AppendEntries panics at a leader, older ones are
+   rejected, newer ones depose it.)                                                          *)
+CommitOnlyCurrentTerm(pre, post) ==
+    (post.role = 2 /\ post.ci > pre.ci /\ post.ci <= Len(post.log)) => post.log[post.ci][1] = post.term
+
+(* the figure-8 situation: a leader holds an uncommitted OLDER-term entry stored on a majority
+   while its last entry is of its own term -- the state in which a wrong 5.4.2 guard commits *)
+Fig8Situation(n, s, me) ==
+    /\ s.role = 2 /\ Len(s.log) > s.ci /\ LastTerm(s.log) = s.term
+    /\ \E c \in (s.ci + 1)..Len(s.log) :
+          /\ s.log[c][1] < s.term
+          /\ 1 + Cardinality({o \in Mem(n) \ {me} : s.match[o] >= c}) >= Majority(n)
+
 StateBroken(n, st) ==
     (IF OneLeaderPerTerm(n, st) THEN {} ELSE {"OneLeaderPerTerm"})
     \cup (IF LogMatching(n, st) THEN {} ELSE {"LogMatching"})
